@@ -2,8 +2,8 @@ package mc
 
 import (
 	"fmt"
-	"strings"
 	"math/rand"
+	"strings"
 	"sync"
 
 	abci "github.com/cometbft/cometbft/abci/types"
@@ -81,7 +81,7 @@ func signerOf(op Op) string {
 // ReplayABCI replays ops through the real ABCI pipeline and compares with the emulation.
 func ReplayABCI(cfg world.Config, ops []Op) abciResult {
 	ops = normalizeForABCI(ops)
-	wE, err1 := world.New(cfg)        // emulation side
+	wE, err1 := world.New(cfg)          // emulation side
 	wA, err2 := world.NewUnstarted(cfg) // ABCI side: InitChain only
 	if err1 != nil || err2 != nil {
 		return abciResult{Err: fmt.Sprintf("cannot build worlds: %v %v", err1, err2)}
